@@ -18,6 +18,8 @@ type c13 struct{}
 
 func init() { engine.Register(c13{}) }
 
+func (c13) PostGenerate(r *engine.Rand, sc *engine.Scenario) { chooseEnv(r, sc) }
+
 func (c13) ID() string { return "C13" }
 
 func (c13) Budget(tier string) int {
@@ -211,7 +213,7 @@ func (c13) Execute(sc *engine.Scenario) *engine.Result {
 	if m == nil {
 		return res
 	}
-	m.Park()
+	park(sc, m, res)
 	installObjects(m, sc.P("oam_seed", 0))
 	var ref dmgref.PPUTiming
 	ref.SwitchOn()
